@@ -189,6 +189,7 @@ func runC08(c *Ctx) {
 	R.Rule("R-state-writers", "who-may-write", "the closed flag is written only by Conn.Close", 1)
 	c.obWriters("Conn.closed", "set once the connection has been given up", "(*Conn).Close")
 	ruleSocketCloseOwner(c)
+	ruleLogoutOnceUnderLock(c)
 }
 
 // ruleSocketCloseOwner (C08): the server closes a connection's socket only through Conn.Close — the one place that
@@ -448,4 +449,46 @@ func ruleNoDispatchAfterClose(c *Ctx) {
 			R.Ob("(*Server).handleConn/dispatch sites", c.P.Pos(f.Pos()), false, "no dispatch site that may close the connection found")
 		}
 	}
+}
+
+// ruleLogoutOnceUnderLock (C08): "exactly one Logout". Conn.Close runs on the connection's goroutine (QUIT, the loop's
+// exit, error threshold, panic) and on Server.Close's. What keeps two overlapping calls from logging the same session
+// out twice is that reading the session, the Logout callback and forgetting the session form ONE critical section of
+// Conn.locker. (reset() makes its callback under the same lock — R-reset-serialised-with-close in C20.)
+func ruleLogoutOnceUnderLock(c *Ctx) {
+	R := c.R
+	_, s := c.Std()
+	R.Rule("R-logout-once-under-lock", "E7 locksets (local)", "in Conn.Close the session is read, logged out and forgotten within one critical section of Conn.locker: overlapping Close calls log a session out once", 3)
+	f := c.A.Func("(*Conn).Close")
+	if f == nil {
+		return
+	}
+	la := &lockAnalysis{c: c, entry: map[*ssa.Function]map[string]bool{}, at: map[ssa.Instruction]map[string]bool{}}
+	la.run([]*ssa.Function{f}, map[*ssa.Function]bool{f: true})
+	nLogout := 0
+	for _, site := range s.Find(f, lLogout) {
+		nLogout++
+		R.Ob(c.siteKey(site, "Logout under Conn.locker"), c.P.InstrPos(site), la.at[site]["Conn.locker"], "Conn.Close calls Logout without holding Conn.locker: a second Close (Server.Close against QUIT or the loop's exit) finds the session still set and logs it out again")
+	}
+	R.Ob("(*Conn).Close/logs out", c.P.Pos(f.Pos()), nLogout >= 1, "no Logout call found in Conn.Close")
+	nClear := 0
+	for _, st := range s.Find(f, "st:Conn.session") {
+		if _, _, v := storedField(st); !isNilConst(v) {
+			continue
+		}
+		nClear++
+		R.Ob(c.siteKey(st, "session forgotten under Conn.locker"), c.P.InstrPos(st), la.at[st]["Conn.locker"], "Conn.Close clears the session outside Conn.locker")
+		// no explicit release of the lock between the function's entry and this store
+		released := ""
+		allInstrs(f, func(in ssa.Instruction) {
+			if _, isDefer := in.(*ssa.Defer); isDefer {
+				return
+			}
+			if name, isLock, ok := lockOp(in); ok && !isLock && name == "Conn.locker" && reachesInstr(in, st) {
+				released = c.P.InstrPos(in)
+			}
+		})
+		R.Ob(c.siteKey(st, "lock not released between reading and forgetting the session"), c.P.InstrPos(st), released == "", "Conn.locker is released at "+released+" before the session is forgotten: the session is logged out and cleared in two critical sections, another Close in between logs it out again (or the late clear wipes a newer session)")
+	}
+	R.Ob("(*Conn).Close/forgets the session", c.P.Pos(f.Pos()), nClear >= 1, "Conn.Close does not clear Conn.session directly (setSession takes the lock again: a second critical section)")
 }
